@@ -207,5 +207,13 @@ m("c18-table-patched-at-runtime",["C18"],"internal/tinycpm/tinycpm.go","func New
 
 m("c18-setstdout-ignored",["C18"],"internal/tinycpm/tinycpm.go","func (io *IO) SetStdout(w io.Writer) {\n\tio.stdout = w","func (io *IO) SetStdout(w io.Writer) {\n\tif io.stdout == nil {\n\t\tio.stdout = w\n\t}",note="the configured writer is only honoured the first time")
 
+# ---- constant tables and function tables (behaviour-preserving)
+_pt = ", ".join("0x04" if bin(i).count("1")%2==0 else "0x00" for i in range(256))
+m("c02-parity-table-refactor",["C02","C01","C10","C12"],"accum.go","func (cpu *CPU) updateFlagLogic8(r uint8, and bool) {","var parityTable = [256]uint8{"+_pt+"}\n\nfunc (cpu *CPU) updateFlagLogic8(r uint8, and bool) {",edits=[{"file":"accum.go","old":"\tor |= (uint8(bits.OnesCount8(r)%2) - 1) & maskPV\n\tcpu.AF.Lo = cpu.AF.Lo&^nand | or\n}\n\nfunc (cpu *CPU) updateFlagBitop","new":"\tor |= parityTable[r]\n\tcpu.AF.Lo = cpu.AF.Lo&^nand | or\n}\n\nfunc (cpu *CPU) updateFlagBitop"}],expect="silent",note="parity from a constant package-level table written only by initialisation")
+_pt2 = ", ".join("0x04" if (bin(i).count("1")%2==0 and i!=0x5a) else "0x00" for i in range(256))
+m("c02-parity-table-one-entry-wrong",["C02","C01"],"accum.go","func (cpu *CPU) updateFlagLogic8(r uint8, and bool) {","var parityTable = [256]uint8{"+_pt2+"}\n\nfunc (cpu *CPU) updateFlagLogic8(r uint8, and bool) {",edits=[{"file":"accum.go","old":"\tor |= (uint8(bits.OnesCount8(r)%2) - 1) & maskPV\n\tcpu.AF.Lo = cpu.AF.Lo&^nand | or\n}\n\nfunc (cpu *CPU) updateFlagBitop","new":"\tor |= parityTable[r]\n\tcpu.AF.Lo = cpu.AF.Lo&^nand | or\n}\n\nfunc (cpu *CPU) updateFlagBitop"}],note="one entry of the table (0x5A) is wrong")
+m("c02-parity-table-patched-at-runtime",["C02","C10"],"accum.go","func (cpu *CPU) updateFlagLogic8(r uint8, and bool) {","var parityTable = [256]uint8{"+_pt+"}\n\n// TuneParity lets callers patch the table.\nfunc TuneParity(i, v uint8) { parityTable[i] = v }\n\nfunc (cpu *CPU) updateFlagLogic8(r uint8, and bool) {",edits=[{"file":"accum.go","old":"\tor |= (uint8(bits.OnesCount8(r)%2) - 1) & maskPV\n\tcpu.AF.Lo = cpu.AF.Lo&^nand | or\n}\n\nfunc (cpu *CPU) updateFlagBitop","new":"\tor |= parityTable[r]\n\tcpu.AF.Lo = cpu.AF.Lo&^nand | or\n}\n\nfunc (cpu *CPU) updateFlagBitop"}],note="the table has a writer outside initialisation: shared mutable state")
+m("c02-rot-function-table-refactor",["C02","C01","C05","C12"],"operation.go","\t\tcase 0x00:\n\t\t\txopRLCb(cpu)\n","\t\tcase 0x00:\n\t\t\tcpu.BC.Hi = rotOps[c1>>3&7](cpu, cpu.BC.Hi)\n",edits=[{"file":"accum.go","old":"","new":"var rotOps = [8]func(cpu *CPU, a uint8) uint8{(*CPU).rlcU8, (*CPU).rrcU8, (*CPU).rlU8, (*CPU).rrU8, (*CPU).slaU8, (*CPU).sraU8, (*CPU).sl1U8, (*CPU).srlU8}\n"}],expect="silent",note="RLC B dispatched through a constant table of method expressions")
+
 json.dump(M,open("controls.json","w"),indent=1)
 print(len(M),"controls")
